@@ -29,6 +29,8 @@ type Call struct {
 	Raw    string
 	Inv    int
 	Ret    int // -1: never returned
+	TInv   int64 // virtual time (ms) at invocation / response
+	TRet   int64
 }
 
 type Exec struct {
@@ -45,10 +47,11 @@ func (x *Exec) note(f string, a ...any) { x.Notes = append(x.Notes, fmt.Sprintf(
 
 // do issues a command on behalf of the calling thread and records it.
 func (x *Exec) do(thread int, cl *redisemu.VClient, args ...string) vm.Reply {
-	c := &Call{Thread: thread, Args: args, Inv: x.Sched.Step, Ret: -1}
+	c := &Call{Thread: thread, Args: args, Inv: x.Sched.Step, Ret: -1, TInv: verifrt.Now().UnixMilli()}
 	x.Calls = append(x.Calls, c)
 	raw := cl.Do(args...)
 	c.Ret = x.Sched.Step
+	c.TRet = verifrt.Now().UnixMilli()
 	c.Raw = string(raw)
 	r, err := vm.Parse1(raw)
 	if err != nil {
@@ -335,7 +338,7 @@ type exploreTask struct {
 func exploreWorker(scenarios []*Scenario) {
 	redisemu.VInit()
 	dec := json.NewDecoder(bufio.NewReaderSize(os.Stdin, 1<<20))
-	w := bufio.NewWriterSize(os.Stdout, 1<<20)
+	w := bufio.NewWriterSize(protoOut, 1<<20)
 	enc := json.NewEncoder(w)
 	for {
 		var t exploreTask
@@ -419,6 +422,7 @@ func runExplore(propID, group string, scenarios []*Scenario, bound int, tier str
 				if err != nil {
 					rep.HarnessErr = append(rep.HarnessErr, fmt.Sprintf("explore worker died on scenario %s prefix %v", scenarios[t.Scenario].Name, t.Prefix))
 					mu.Unlock()
+					wp.cmd.Process.Kill()
 					wp.cmd.Wait()
 					wp, _ = startWorker("exploreworker", propID, group, tier)
 					continue
